@@ -17,6 +17,8 @@
 
    This file holds only statements, each closed by [exact] of a lemma from
    Proofs/, followed by Print Assumptions; plus pins and examples. *)
+From RM Require Import Model.EncPathSpec Model.HitObjectSpec Proofs.EncPathRT Proofs.EncPathImage Proofs.EncSlider Proofs.EncLineImage Proofs.EncMapImage.
+From RM Require Import Model.EncObjCarry Proofs.EncObjectsRT.
 From RM Require Import Model.EncSpec Proofs.EncFmt Proofs.EncShape Proofs.EncSimple Proofs.EncImage Proofs.EncObjects Proofs.EncRound Proofs.EncTiming.
 From RM Require Import Gen.Generated.
 Open Scope Z_scope.
@@ -34,6 +36,8 @@ Example pin_headers :
 Proof. vm_compute. reflexivity. Qed.
 
 Example pin_limits : max_parse_value = 2147483647 /\ color_default_alpha = 255.
+Proof. split; reflexivity. Qed.
+Example pin_slider_limits : max_coordinate_value = 131072 /\ repeat_cap = 9000.
 Proof. split; reflexivity. Qed.
 
 (* ---------- T04a: shape ---------- *)
@@ -282,6 +286,141 @@ Example decoded_objects_ok :
   end.
 Proof. vm_compute. split; reflexivity. Qed.
 
+(* ---------- T04b for slider lines ---------- *)
+(* [slider_ok h s d] (Model/EncPathSpec.v): start time within the parse limits, sample data
+   representable, integer position within +-131072, combo offset 0..7, repeat count 0..8999,
+   control points in the decoder's image ([path_image]) and outside D13 / D17 / consecutive
+   Catmull, and the written length [d] (explicit length, or the length of the computed curve)
+   within the coordinate limit -- its negation is the known finding D21.  Besides [fmt_ok] one
+   more fact about `Display` is assumed: [fmt_f32_int], an integer-valued f32 prints like the
+   integer.
+   For EVERY parser state the whole line -- position, time, type byte, hit sound, path, span
+   count, length, edge sounds, edge sets, extras -- is accepted and adds exactly one slider with
+   the same start time, position, control points, repeat count and node count. *)
+Theorem C04_slider_line_accepted :
+  forall fmt_f64 fmt_f32 fmt_int, fmt_ok fmt_f64 fmt_f32 fmt_int -> fmt_f32_int fmt_f32 fmt_int ->
+  forall dist mode h s d l,
+  h_kind h = KSlider s -> written_len dist s = Done d -> slider_ok h s d = true ->
+  object_line dist mode h = Done l ->
+  forall st, exists st' o s',
+    parse_hit_objects st (render fmt_f64 fmt_f32 fmt_int l) = Done (st', Ok) /\
+    ho_objects st' = ho_objects st ++ [o] /\
+    h_start o = h_start h /\ h_kind o = KSlider s' /\
+    sl_pos s' = sl_pos s /\
+    sl_control_points s' = sl_control_points s /\
+    sl_repeat_count s' = sl_repeat_count s /\
+    length (sl_node_samples s') = Z.to_nat (sl_repeat_count s + 2).
+Proof.
+  intros f64 f32 fi Hfmt H32 dist mode h s d l H1 H2 H3 H4.
+  exact (slider_line_accepted f64 f32 fi Hfmt H32 dist mode h s d l H1 H2 H3 H4).
+Qed.
+Print Assumptions C04_slider_line_accepted.
+
+(* the path field on its own: T02c (stated in full in C02_path_round_trip) *)
+Theorem C04_path_field_read_back :
+  forall fmt_f64 fmt_f32 fmt_int, fmt_ok fmt_f64 fmt_f32 fmt_int -> fmt_f32_int fmt_f32 fmt_int ->
+  forall pos cps,
+  path_image pos cps = true ->
+  d13_class cps = false -> d17_class cps = false -> consec_catmull cps = false ->
+  exists s, render fmt_f64 fmt_f32 fmt_int (path_toks pos cps) = s ++ [comma] /\ memb comma s = false /\
+            forallb safec s = true /\
+            path_spec s pos = (cps, true) /\
+            forall vs, exists vs', convert_path_str (mkPB [] vs) s pos = Done (mkPB cps vs', Ok).
+Proof. intros f64 f32 fi Hfmt H32 pos cps H1 H2 H3 H4. exact (path_round_trip f64 f32 fi Hfmt H32 pos cps H1 H2 H3 H4). Qed.
+Print Assumptions C04_path_field_read_back.
+
+(* ---------- T04b: every body line of [HitObjects] ---------- *)
+(* [encodable dist h]: [object_ok h] for a circle, spinner or hold, [slider_ok h s d] for a
+   slider (d the length the encoder writes).  Every line written for a list of encodable objects
+   is accepted in every parser state and adds exactly one object with the start time of the
+   object it was written from; reading the section back yields as many objects as lines, with
+   the same start times in the same order: nothing is dropped. *)
+Theorem C04_hit_object_lines_accepted :
+  forall fmt_f64 fmt_f32 fmt_int, fmt_ok fmt_f64 fmt_f32 fmt_int -> fmt_f32_int fmt_f32 fmt_int ->
+  forall dist mode objs ls,
+  Forall (encodable dist) objs -> object_lines dist mode objs = Done ls ->
+  Forall2 (fun h l => ho_accepted fmt_f64 fmt_f32 fmt_int (h_start h) l) objs ls.
+Proof.
+  intros f64 f32 fi Hfmt H32 dist mode objs ls H1 H2.
+  exact (hit_object_lines_accepted f64 f32 fi Hfmt H32 dist mode objs ls H1 H2).
+Qed.
+Print Assumptions C04_hit_object_lines_accepted.
+
+Theorem C04_hit_objects_section_read_back :
+  forall fmt_f64 fmt_f32 fmt_int, fmt_ok fmt_f64 fmt_f32 fmt_int -> fmt_f32_int fmt_f32 fmt_int ->
+  forall dist mode objs ls st,
+  Forall (encodable dist) objs -> object_lines dist mode objs = Done ls ->
+  exists st', run_ho st (map (render fmt_f64 fmt_f32 fmt_int) ls) = Done st' /\
+              map h_start (ho_objects st') = map h_start (ho_objects st) ++ map h_start objs.
+Proof.
+  intros f64 f32 fi Hfmt H32 dist mode objs ls st H1 H2.
+  exact (hit_objects_section_read_back f64 f32 fi Hfmt H32 dist mode objs ls st H1 H2).
+Qed.
+Print Assumptions C04_hit_objects_section_read_back.
+
+(* the decoder's image, at line level: every object that an accepted hit-object line adds has a
+   start time within the parse limits, an integer position within +-131072, a combo offset
+   0..7; a slider has control points in [path_image], a repeat count 0..8999, repeat count + 2
+   nodes and an explicit length (if any) within the coordinate limit *)
+Theorem C04_accepted_line_object_image :
+  forall st line st', parse_hit_objects st line = Done (st', Ok) ->
+  exists o, ho_objects st' = ho_objects st ++ [o] /\ object_image o = true.
+Proof. exact parse_object_image. Qed.
+Print Assumptions C04_accepted_line_object_image.
+
+Theorem C04_path_image_is_decoder_image :
+  forall pos s vs cps vs',
+  coord_ok (px pos) = true -> coord_ok (py pos) = true ->
+  convert_path_str (mkPB [] vs) s pos = Done (mkPB cps vs', Ok) -> path_image pos cps = true.
+Proof. exact convert_path_str_image. Qed.
+Print Assumptions C04_path_image_is_decoder_image.
+
+(* ... and that image survives the whole decoder (every line parser, the stable sort, the break
+   post-processing, the per-object loop): it holds of every hit object of every decoded map *)
+Theorem C04_decoded_objects_image :
+  forall dist lines m, decode_beatmap dist lines = Done m ->
+  Forall (fun h => object_image h = true) (hov_hit_objects (bmv_ho m)).
+Proof. exact decoded_objects_image. Qed.
+Print Assumptions C04_decoded_objects_image.
+
+(* "every non-blank line of [HitObjects] is accepted", for decoded maps: whatever the input,
+   if the objects of the decoded map are outside the recorded classes -- [residual]: D13 / D17 /
+   consecutive Catmull, D21 (written length), D26 (end time) -- and carry representable sample
+   data ([sample_ok]: not mechanised for the decoder's image), then every line the encoder
+   writes for them is accepted in every parser state and adds one object with the same start time *)
+Theorem C04_decoded_hit_object_lines_accepted :
+  forall fmt_f64 fmt_f32 fmt_int, fmt_ok fmt_f64 fmt_f32 fmt_int -> fmt_f32_int fmt_f32 fmt_int ->
+  forall dist lines m mode ls,
+  decode_beatmap dist lines = Done m ->
+  Forall (residual dist) (hov_hit_objects (bmv_ho m)) ->
+  object_lines dist mode (hov_hit_objects (bmv_ho m)) = Done ls ->
+  Forall2 (fun h l => ho_accepted fmt_f64 fmt_f32 fmt_int (h_start h) l) (hov_hit_objects (bmv_ho m)) ls.
+Proof.
+  intros f64 f32 fi Hfmt H32 dist lines m mode ls H1 H2 H3.
+  exact (decoded_hit_object_lines_accepted f64 f32 fi Hfmt H32 dist lines m mode ls H1 H2 H3).
+Qed.
+Print Assumptions C04_decoded_hit_object_lines_accepted.
+
+(* D26 (known finding): [object_ok] does not hold of every decoded spinner / hold -- the end time
+   start + duration can exceed the parse limit by rounding; the line is then rejected in every
+   state, for every formatting function, and the decoded object is lost on re-read *)
+Theorem C04_end_beyond_limit_rejected :
+  forall fmt_f64 fmt_f32 fmt_int, fmt_ok fmt_f64 fmt_f32 fmt_int ->
+  forall dist mode h l, end_beyond_limit h = true -> object_line dist mode h = Done l ->
+  forall st, parse_hit_objects st (render fmt_f64 fmt_f32 fmt_int l) = Done (st, Rejected).
+Proof. intros f64 f32 fi Hfmt dist mode h l H1 H2. exact (end_beyond_limit_rejected f64 f32 fi Hfmt dist mode h l H1 H2). Qed.
+Print Assumptions C04_end_beyond_limit_rejected.
+
+Theorem C04_decoded_end_beyond_limit_refuted :
+  exists text m, decode_beatmap stub_dist (lines_of_text text) = Done m /\
+  hov_hit_objects (bmv_ho m) <> [] /\
+  forall fmt_f64 fmt_f32 fmt_int, fmt_ok fmt_f64 fmt_f32 fmt_int ->
+  forall h, In h (hov_hit_objects (bmv_ho m)) ->
+  forall dist mode l, object_line dist mode h = Done l ->
+  forall st, parse_hit_objects st (render fmt_f64 fmt_f32 fmt_int l) = Done (st, Rejected).
+Proof. exact decoded_end_beyond_limit_refuted. Qed.
+Print Assumptions C04_decoded_end_beyond_limit_refuted.
+
 (* ---------- T04b for timing-point lines (line grammar) ---------- *)
 
 (* every body line of the [TimingPoints] section has the shape time,beat,sig,bank,custom,volume,flag,effects *)
@@ -311,17 +450,22 @@ Print Assumptions C04_timing_line_accepted.
      follow from C12's value theorems; the TIMES do not: sample points collected from hit
      objects sit at start + duration, which can leave the parse limit by rounding (side
      condition exercised by the oracle).  parse_timing_points itself is total on sorted
-     control points (C13), so "accepted" = "parse_tp_line returns the record".
+     control points (C13), so "accepted" = "parse_tp_line returns the record".  Which lines are
+     written, and that the section reads back as the timing points and timelines under explicit
+     side conditions, is in C02 (C02_timing_section_records, C02_timing_round_trip_partial).
 
    Hit-object lines, what is left [P]:
-     (a) [object_ok] on the decoder's image: not mechanised (the invariant has to be carried
-         through the stable sort, the break post-processing and SamplePoint::apply of
-         MapLevel.v); a side condition that is NOT an invariant and is exercised by the oracle:
-         start + duration may leave the parse limit by rounding.
-     (b) sliders (outside D17 / D21):  parse_hit_objects st (render (object_line mode h))
-         = Done (st', Ok), same kind / start / position, same control points.
-     (c) T04c in full for hit objects (samples up to carry) is a map-level statement
-         (SamplePoint::apply runs after parsing): C02's T02b.
+     "every non-blank line of [HitObjects] is accepted for every decoded map outside the recorded
+     classes": proved above for every list of [encodable] objects
+     (C04_hit_object_lines_accepted) and for every decoded map whose objects satisfy [residual]
+     (C04_decoded_hit_object_lines_accepted): start time, position, combo offset, control points,
+     repeat count, node count and explicit length are proved of every object of every decoded
+     map (C04_accepted_line_object_image, C04_decoded_objects_image).  NOT mechanised:
+     [sample_ok] of the processed samples (custom index / volume within i32, file names free of
+     `,` `:` `//`).  Not invariants at all (recorded classes, hypotheses of [residual]): start +
+     duration within the parse limits (D26), the computed length of a slider without explicit
+     length (D21), D13 / D17 / consecutive Catmull (C02).
+     T04c in full for hit objects (samples up to carry): C02's T02b.
    Covered by the `enc` correspondence (slider files included, curve and slider-event models
    connected) and by the C04 / C02 oracles (each encoded hit-object line is parsed, kind and
    start time compared; objects compared field by field in C02). *)
